@@ -707,6 +707,12 @@ func VirtualColCustomVariables(_ *Peer, row *DataRow, _ *Column) interface{} {
 	values := row.dataStringList[valuesCol.Index]
 	res := make(map[string]string, len(names))
 	for i := range names {
+		if i >= len(values) {
+			// backend sent fewer values than names
+			res[names[i]] = ""
+
+			continue
+		}
 		res[names[i]] = values[i]
 	}
 
